@@ -52,6 +52,9 @@ type ctx struct {
 	// "<trustCache><earlyValue><zeroRoot><walkCollapsed><checkKey>"
 	cfg2 string // trie2.VerifyProof
 	cfgL string // trie.VerifyProof (only zeroRoot matters)
+	// trie2.VerifyRangeProof: "1" = first / keys of 2^251 or more are refused (the proposed repair), "0" = the
+	// low 251 bits are verified instead (/repo as it is)
+	rangeCk string
 	// number of calls made although they are predicted not to return
 	hangsRun int32
 	// legacy range proofs: per kind of false claim [accepted, total]
@@ -74,9 +77,9 @@ var families = [...]struct {
 
 func familyOf(ch *check) int {
 	switch {
-	case strings.HasPrefix(ch.line, "pv "):
+	case strings.HasPrefix(ch.line, "pv "), strings.HasPrefix(ch.line, "pr "):
 		return 1
-	case strings.HasPrefix(ch.line, "r2 "):
+	case strings.HasPrefix(ch.line, "r2 "), strings.HasPrefix(ch.line, "r2f "):
 		return 2
 	case strings.HasPrefix(ch.sig, "rpc-"):
 		return 3
@@ -235,6 +238,7 @@ func main() {
 				"zero root = empty trie, walk on the collapsed copy, key < 2^251 checked); the repaired code is 00111 / 00101: a fix has been undone", c.cfg2, c.cfgL),
 			Replay: map[string]any{"section": "probe", "trie2": c.cfg2, "legacy": c.cfgL}})
 	}
+	c.rangeCk = c.probeRangeKeyCheck()
 	if f.Replay != "" {
 		c.replay(f.Replay)
 		lib.Finish(f, res)
